@@ -30,7 +30,7 @@ depth — nothing explicit is removed, changed or re-ordered, and everything a v
 the RFC completion of the result is the RFC completion of the input.  (Hypothesis `OkBelowL`: table rows = statement records,
 decidable `okBelowL_of_B`.)  The proof lifts the exactness of the change log of one `lyd_new_implicit` call (`implL_tr`) through
 `lyd_validate_subtree` by induction over the depth (`subtreeNode_explicit`), with `lyd_validate_new` deleting nothing on fresh
-siblings (`validateNew_fresh`) and `lyd_np_cont_dflt_set` never firing on a container with explicit content (`finalKids_explicit`). -/
+siblings (`validateNew_freshLevel`) and `lyd_np_cont_dflt_set` never firing on a container with explicit content (`finalKids_explicit`). -/
 theorem implicit_exact_tree_explicit (X : SchemaX) (o : VOpts) (t : List DNode) (hok : OkBelowL X.base X.top)
     (hf : freshExplL t = true) (hnp : npFullL X.base t = true) (hpe : (o.present && t.isEmpty) = false) :
     explicitPart (validate X o t).tree = explicitPart t ∧
@@ -58,7 +58,7 @@ example :
 /-- **`implicit_exact_tree` for schemas without `choice`** — containers (presence and non-presence), lists, leaves and leaf-lists
 with defaults in any nesting; every variant of the code; options without `LYD_VALIDATE_NO_STATE`; every tree `t` of ANY depth in
 which every node carries `LYD_NEW` and none `LYD_DEFAULT` (`freshExplL`), whose nodes sit below their schema parents (`placedL`)
-and whose inner nodes are instances of containers / lists (`shapedL`): **the validated tree IS the RFC completion of the input**,
+and whose inner nodes are instances of containers / lists (`cShapedL`): **the validated tree IS the RFC completion of the input**,
 `validate t = rfcComplete t` up to `obsL` (no `LYD_NEW`, no metadata, no default flag on non-presence containers) — the same
 nodes, the same values, the same default flags on terminal nodes, the same sibling order, at every depth; no hypothesis that the
 validation succeeds (the model continues after errors).  Schema hypotheses, decidable (`dataSchema_of_B`): every level is a list of data
@@ -68,7 +68,7 @@ every container / list entry completed in place — the level does not look at t
 completion, `lvl_map`), `subtreeNode_rfc` (induction over the depth: `lyd_validate_subtree` completes the children of every node the
 same way), `rfcL_obs` (the completion respects the observation, all schemas). -/
 theorem implicit_exact_tree_nochoice (X : SchemaX) (o : VOpts) (t : List DNode) (hno : o.noState = false) (hD : DataSchema X)
-    (hf : freshExplL t = true) (hp : placedL X X.top t = true) (hs : shapedL X.base t = true)
+    (hf : freshExplL t = true) (hp : placedL X X.top t = true) (hs : cShapedL X.base t = true)
     (hh : sheightL X.top ≤ walkFuel X t) (hpe : (o.present && t.isEmpty) = false) :
     obsL X.base (validate X o t).tree = obsL X.base (rfcComplete X o t) :=
   validate_rfcComplete_nochoice X o t hno hD hf hp hs hh hpe
@@ -78,7 +78,7 @@ list l { key k; leaf v {default} } }`): the fresh tree `c { l[k=1] }` — the hy
 `l/v`: 5 nodes below `c`, the list entry has 2 -/
 example :
     let t : List DNode := freshL Sx [.inner 0 {} [] [.inner 5 {} [] [.term 6 {} [] [49]]]]
-    dataSchemaB Xx = true ∧ freshExplL t = true ∧ placedL Xx Xx.top t = true ∧ shapedL Sx t = true ∧ sheightL Xx.top ≤ walkFuel Xx t ∧
+    dataSchemaB Xx = true ∧ freshExplL t = true ∧ placedL Xx Xx.top t = true ∧ cShapedL Sx t = true ∧ sheightL Xx.top ≤ walkFuel Xx t ∧
     (validate Xx {} t).tree.map (fun n => n.kids.map fun k => (k.sid, k.kids.length)) = [[(1, 0), (2, 0), (2, 0), (3, 1), (5, 2)]] := by
   refine ⟨by decide +kernel, by decide +kernel, by decide +kernel, by decide +kernel, by decide +kernel, by decide +kernel⟩
 
